@@ -498,9 +498,19 @@ def main(prop, argv=None):
     if nproc == 1:
         results = [_task_entry(t) for t in tasks]
     else:
+        # global wall-clock guard: only ever turns a hung run into exit 2 (inconclusive), never into a VIOLATION
+        limit = float(os.environ.get("VERIF_WALL_LIMIT", "1500" if args.tier == "quick" else "14400"))
         with ctx.Pool(nproc, maxtasksperchild=1) as pool:
-            for r in pool.imap_unordered(_task_entry, tasks):
-                results.append(r)
+            it = pool.imap_unordered(_task_entry, tasks)
+            try:
+                for _ in range(len(tasks)):
+                    remaining = limit - (time.time() - t0)
+                    results.append(it.next(timeout=max(1.0, remaining)))
+            except multiprocessing.TimeoutError:
+                pool.terminate()
+                print(f"HARNESS-ERROR property={prop.ID} wall-clock guard of {limit:.0f}s hit with {len(tasks) - len(results)} "
+                      f"shard(s) unfinished: inconclusive (a hang inside the library or the harness)")
+                return 2
     wall = time.time() - t0
 
     harness = [r for r in results if r["harness_error"]]
